@@ -94,7 +94,7 @@ PROPS = {
  },
  "C13": {
   "module": "Zog.Props.C13",
-  "theorems": COMMON + [P + "C13." + t for t in ["prim_modes_agree", "prim_modes_agree_with_posts", "ptr_modes_agree", "same_field_keys", "custom_modes_agree", "coerce_own_type", "both_modes_refine"]],
+  "theorems": COMMON + [P + "C13." + t for t in ["prim_modes_agree", "prim_modes_agree_with_posts", "ptr_modes_agree", "same_field_keys", "custom_modes_agree", "coerce_own_type", "both_modes_refine", "parse_validate_agree_spec", "parse_validate_agree", "parse_validate_same_issue_map", "pres_prim_own"]] + ["Zog.Spec.agree", "Zog.Spec.fieldLoop_agree", "Zog.Spec.sliceLoop_agree"],
   "streams": [st("modes", 3000, 150000), eng(2000, 60000)],
   "trusted_base": ENGINE_TB, "assumptions": ENGINE_ASSUME,
  },
